@@ -94,6 +94,10 @@ def install_plugins():
 
 def run(chk, prop):
     core.setup_repo_path()
+    if prop == "C03":
+        # formatter plug-ins as transitions: the registry machine restricted to what concerns rendering
+        from . import registry
+        registry.cases(chk, "C03")
     if prop in ("C03", "C08"):
         install_plugins()
     quick = chk.tier == "quick"
